@@ -42,6 +42,9 @@ Prefixes ==
       <<o("h1", "A", "d1"), o("h2", "A", "d1"), cad("h1"), o("h3", "A", "d1"), o("h4", "A", "d1"), sf("h4", "c0", "f1", "live"),
         cl("h2"), cl("h3"), w("h4", "c0")>>,
       <<o("h1", "B", "mem"), o("h2", "B", "mem"), cad("h1"), o("h3", "B", "mem"), sf("h3", "c1", "f1", "live"), cl("h2"), cl("h2"), w("h3", "c1")>>,
+      \* a bucket-level dump over collections of the same name in two scopes, one of which takes longer
+      <<o("h1", "A", "mem"), w("h1", "c1"), w("h1", "c3"), w("h1", "c1"), w("h1", "c3"), w("h1", "c0"), sf("h1", "c0", "f1", "mdump"), w("h1", "c0")>>,
+      <<o("h1", "B", "d2"), w("h1", "c3"), w("h1", "c1"), w("h1", "c3"), w("h1", "c1"), sf("h1", "c0", "f1", "mdump")>>,
       \* a bucket-level feed over collections of the same name in two scopes loses one of them
       <<o("h1", "A", "mem"), sf("h1", "c0", "f1", "multi"), w("h1", "c1"), w("h1", "c3"), drop("h1"), w("h1", "c0"), w("h1", "c3")>>,
       <<o("h1", "B", "d1"), o("h2", "B", "d1"), sf("h2", "c0", "f1", "multi"), drop("h1"), w("h2", "c3"), w("h1", "c0")>>,
